@@ -296,6 +296,10 @@ pub fn text_strategy() -> impl Strategy<Value = String> {
         // long and expanding texts (UTF-16 -> UTF-8 grows): lengths up to ~4k
         2 => (proptest::sample::select(vec!["中", "é", "a", "😀", "k: 中\n", "- é\n", "\"中中\" "]), 0usize..1400).prop_map(|(u, n)| u.repeat(n)),
         1 => (1usize..12, proptest::sample::select(vec!["中", "é", "😀"])).prop_map(|(n, u)| u.repeat(n)),
+        // structured texts the decoder's loader (the iterator back-end) is sensitive to: block
+        // scalars under indentation on both sides of its 16-character window, golden documents
+        1 => crate::gen::deep_block_strategy().prop_map(|d| crate::gen::render_deep_block(&d)),
+        1 => proptest::sample::select(crate::gen::GOLDEN).prop_map(|g| g.to_string()),
     ];
     // a text that itself starts with U+FEFF is the shape of known finding F21 (<= 5 % of cases)
     let prefix = prop_oneof![
